@@ -23,3 +23,4 @@ import TvUring.Props.C20
 #print axioms TV.C20.C20_witness_F_C20_1
 #print axioms TV.C20.C20_partial
 #print axioms TV.C20.C20_fixed
+#print axioms TV.C20.abandon_spec
